@@ -102,7 +102,7 @@ def judge_stages(res):
 
 def run_format_generated(ctx, probe, mc, consts, cov):
     deep = ctx.tier == "thorough"
-    r = tlc(ctx, "NvmFormat_MC", cfg="NvmFormat", workers=workers(ctx), timeout=1700, cwd_files=[mc],
+    r = tlc(ctx, "NvmFormat_MC", cfg="NvmFormat", workers=workers(ctx), timeout=3400, cwd_files=[mc],
             constants=fmt_constants(consts, deep))
     if r.violated == "ASSUME":
         raise InfraError("NvmFormat.tla: an ASSUME about the extracted sizes is false; the layout model does not apply\n" + r.out[-1500:])
@@ -396,7 +396,7 @@ def run_format_real(ctx, probe, mc, consts, nvms, cov):
                                        violated=bad, built=res.get("built"), loaded=res.get("loaded")), indent=1))
                 ctx.violation("format: in-memory module of the compiler vs its reload: %s (%s)" % (bad[0], prog["name"]), path)
     # real bytes parsed by the spec's Deserialize: drift information only
-    r = tlc(ctx, "NvmFormat_MC", cfg="NvmFormat", workers=workers(ctx), timeout=1700, cwd_files=[mc, real],
+    r = tlc(ctx, "NvmFormat_MC", cfg="NvmFormat", workers=workers(ctx), timeout=3400, cwd_files=[mc, real],
             constants=fmt_constants(consts, False, "c10_real_files.ndjson"), xss="900m")
     if r.violated:
         raise InfraError("NvmFormat.tla on real files: %s\n%s" % (r.violated, r.out[-2000:]))
